@@ -48,6 +48,10 @@ def run(ctx):
     r13_5(ctx, oimp)
     from . import c07
     c07.r07_5(ctx)
+    # a batch is only right if every adapter translates each of its diffs right
+    from . import groups
+    groups.util_stage_rules(ctx)
+
 
 
 def r13_1(ctx, imp):
